@@ -132,10 +132,13 @@ public:
         }
     };
 
-    std::vector<GroupProperty> splitInGroups(const long int inGroupSize) const {
-        if(inGroupSize <= 0){
+    std::vector<GroupProperty> splitInGroups(const long int inRequestedGroupSize) const {
+        if(inRequestedGroupSize <= 0){
             return std::vector<GroupProperty>();
         }
+
+        // A group cannot hold more than all the leaves (any larger request means "one group")
+        const long int inGroupSize = std::min(inRequestedGroupSize, std::max(getNbLeaves(), 1L));
 
         const long int nbGroups = (getNbLeaves() + inGroupSize - 1)/inGroupSize;
 
